@@ -30,6 +30,24 @@ def plan(ctx):
     return out
 
 
+def _spellings(m, v, kw):
+    out = []
+    cands = [('lower', v.lower()), ('space2', v[:2] + ' ' + v[2:]), ('space4', v[:4] + ' ' + v[4:]), ('space-mid', v[:len(v) // 2] + ' ' + v[len(v) // 2:]),
+             ('spaces', ' '.join(v[i:i + 2] for i in range(0, len(v), 2))), ('lead-space', ' ' + v)]
+    if hasattr(m, 'format'):
+        try:
+            cands.append(('format', m.format(v)))
+        except Exception:
+            pass
+    for nm, sp in cands:
+        try:
+            if sp != v and m.validate(sp, **kw) == v:
+                out.append((nm, sp))
+        except Exception:
+            pass
+    return out
+
+
 def _gen(f, arg, gkw=None):
     try:
         return ('ok', f(arg, **(gkw or {})))
@@ -71,6 +89,18 @@ def _eval(res, name, m, gname, shape, opts, v, stats, observed=None):
         res.viol(ID, 'generator-differs', name, gname, dict(case, clause='i'),
                  '%s(%r) -> %r but valid number %r carries %r' % (gname, arg, g[1], v, present),
                  'generated == present', devclass='len%d' % len(v), rank=[0, len(v), v])
+    # (i') the generator is given the full number in these rows and compacts it itself: presentations that validate()
+    # accepts as this very number must give the same check characters
+    if arg == v and not gkw and opts.get('spellings', True):
+        for sname, sp in _spellings(m, v, kw):
+            g3 = _gen(f, sp, gkw)
+            stats['evals'] += 1
+            if g3[0] != 'ok':
+                continue        # this generator does not take presentations (nothing says it should)
+            if g3 != g:
+                res.viol(ID, 'generator-depends-on-spelling', name, gname, dict(case, clause="i'", spelling=sp),
+                         '%s(%r) -> %r but %s(%r) -> %r (validate() reads both as %r)' % (gname, v, g[1], gname, sp, g3[1], v),
+                         'same check characters', devclass=sname, rank=[1, len(sp), sp])
     # (ii) alternatives at the check positions
     alphabet = set(e2.D)
     for p in pos:
@@ -194,6 +224,8 @@ def replay(case):
     for gname, shape, opts in c05_shapes.rows(name, m):
         if gname == case['generator']:
             o2 = dict(opts)
+            if case.get('clause') == "i'" and gkw:
+                continue
             if gkw:
                 o2['kw'] = dict(opts.get('kw', {}), **gkw)
                 o2['gkw'] = gkw
